@@ -22,7 +22,7 @@ def contTok : Option Nat → String
   | none => "-1" | some n => toString n
 
 /-- `sc autoconf forwarding n op* | (result)* autoconf' forwarding'` — the real sysctl functions
-    over a scratch directory (contents as codes: 0 "0\n", 1 "1\n", 2 other, -1 missing; after a
+    over a scratch directory (contents as codes: 0 "0\n", 1 "1\n", 2 not an integer, 3 another non-zero integer, 4 another zero, -1 missing; after a
     write the harness renders the file as the kernel would) -/
 def sc (c impl : List String) : Option Verdict := do
   let (a, f, ops) ← P.run (do let a ← pContent; let f ← pContent; let l ← P.list pOp; pure (a, f, l)) c
@@ -33,7 +33,7 @@ def sc (c impl : List String) : Option Verdict := do
   let ok := impl == model
   pure { model := " ".intercalate model, oracle := ok,
          nontrivial := ops.any (fun o => match o with | .setAutoconf _ => true | _ => false) && ops.length ≥ 2,
-         note := if ok then "" else "sysctl glue: a boolean reads true iff the file is \"1\\n\" (error iff unreadable), enable writes \"1\" / disable \"0\" to the autoconf file only, forwarding reads the forwarding file" }
+         note := if ok then "" else "sysctl glue: a boolean reads true iff the file holds a non-zero integer (forwarding = 2 forwards), false iff zero, error iff unreadable or not an integer, enable writes \"1\" / disable \"0\" to the autoconf file only, forwarding reads the forwarding file" }
 
 /-- `scc readers reads | wrong`: concurrent readers of one shared `State`, each of its own
     interface: no read may return another interface's value -/
